@@ -148,17 +148,72 @@ def run(ctx):
         ev = Evaluator(p, 'ecdsa')
         a = ev.module_const('helper', 'BASE58_ALPHABET')
         same_term(ob, a, T.const(B58.ALPHABET), 'Base58 alphabet', 'btc_hd_wallet/helper.py')
-        # raising lookup: every use of the alphabet for char -> digit is `.index(c)` or guarded by membership
-        finds = [n for n in ast.walk(fdb.node) if isinstance(n, ast.Call) and isinstance(n.func, ast.Attribute)
-                 and n.func.attr in ('find', 'rfind')]
-        guarded = [n for n in ast.walk(fdb.node) if isinstance(n, ast.If) and isinstance(n.test, ast.Compare)
-                   and isinstance(n.test.ops[0], ast.NotIn) and any(isinstance(x, ast.Raise) for x in n.body)]
-        idx = [n for n in ast.walk(fdb.node) if isinstance(n, ast.Call) and isinstance(n.func, ast.Attribute)
-               and n.func.attr == 'index']
-        ob.require(bool(idx or guarded), 'decode_base58 has a raising character lookup (.index or a membership guard that raises)',
-                   fdb.where)
-        ob.require(not finds or bool(guarded), 'decode_base58 looks characters up with .find() (returns -1) without a membership '
-                   'guard that raises', fdb.where)
+        # a character outside the alphabet is refused: the body of every loop that walks the input string is evaluated
+        # with the character symbolic and known to differ from each of the 58 letters - every path must raise
+        # (`ALPHABET.index(c)` itself raises for such a character)
+        walked = fdb.params[0]
+        loops_ = []
+        for n in ast.walk(fdb.node):
+            if isinstance(n, ast.For):
+                it = n.iter
+                if isinstance(it, ast.Call) and isinstance(it.func, ast.Name) and it.func.id == 'enumerate' and it.args:
+                    it = it.args[0]
+                if isinstance(it, ast.Name) and it.id == walked:
+                    loops_.append(n)
+        if not loops_:
+            ob.undecided('decode_base58 has no loop that walks its input string character by character; the refusal of foreign '
+                         'characters cannot be located', fdb.where)
+        refusing = 0
+        for lp in loops_:
+            ev2 = Evaluator(p, 'ecdsa')
+            sx = S('s', type='str')
+            pre_stmts = []
+            for st in fdb.node.body:
+                if st is lp or any(x is lp for x in ast.walk(st)):
+                    break
+                pre_stmts.append(st)
+            try:
+                _, env0, f0 = ev2.eval_fragment('helper.decode_base58', pre_stmts, {walked: sx})
+            except Exception:
+                env0, f0 = {walked: sx}, Facts()
+            c = S('c', type='str', len=1)
+            env = dict(env0)
+            for nm in {x.id for x in ast.walk(lp) if isinstance(x, ast.Name) and isinstance(x.ctx, ast.Store)}:
+                if nm in env and T.is_const(env[nm]) and isinstance(env[nm][1], int) and not isinstance(env[nm][1], bool):
+                    env[nm] = S('carried_' + nm, type='int')      # loop-carried numbers: any value
+            tgt = lp.target
+            if isinstance(tgt, ast.Tuple) and len(tgt.elts) == 2 and all(isinstance(x, ast.Name) for x in tgt.elts):
+                env[tgt.elts[0].id] = S('position', type='int')
+                env[tgt.elts[1].id] = c
+            elif isinstance(tgt, ast.Name):
+                env[tgt.id] = c
+            else:
+                ob.undecided('loop target of the character loop not understood: %s' % ast.unparse(tgt), fdb.where)
+                continue
+            facts = Facts()
+            for ch in B58.ALPHABET:
+                facts = facts.add(T.not_(T.eq(c, T.const(ch))))
+            res, env2, f2 = ev2.eval_fragment('helper.decode_base58', lp.body, env, facts)
+
+            def refuses(leaf):
+                return T.tag(leaf) == 'raise'
+            if res is FALL:
+                lv = []
+            else:
+                lv = [x for x in distinct_leaves(res)]
+            falls = res is FALL or any(x is FALL or x == FALL for x in lv)
+            uses_index = any(T.contains(v_, lambda x: T.is_op(x) and x[1] in ('INDEX', 'METHOD') and T.contains(x, lambda y: y == c))
+                             for v_ in list(env2.values()) if v_ is not None)
+            if not falls and lv and all(refuses(x) for x in lv):
+                refusing += 1
+            elif uses_index:
+                refusing += 1         # str.index raises ValueError for a character that is not there
+            else:
+                # this loop lets a foreign character through; acceptable only if another loop over the same string refuses it
+                ob.note('loop at line %d does not refuse a character outside the alphabet by itself' % lp.lineno)
+        if loops_:
+            ob.require(refusing >= 1, 'decode_base58 refuses a character outside the Base58 alphabet (evaluated with the character '
+                       'symbolic and different from all 58 letters: every path through the digit loop must raise)', fdb.where)
     fba = p.get_function('helper.b58decode_addr')
     with ctx.obligation('C10.ADDR', 'helper.b58decode_addr', None, fba.where) as ob:
         summ = dict(X.DEFAULT_SUMMARIES)
